@@ -790,12 +790,13 @@ impl MdkStorageProvider for MdkMemoryStorage {
     }
 
     fn create_group_snapshot(&self, group_id: &GroupId, name: &str) -> Result<(), MdkStorageError> {
+        // Hold the snapshot map across capture + insert so that the two are one atomic
+        // step for every other snapshot operation (lock order: group_snapshots -> inner).
+        let mut snapshots = self.group_snapshots.write();
         // Create a group-scoped snapshot that only captures data for this group.
         // This ensures that rolling back this snapshot won't affect other groups.
         let snapshot = self.create_group_scoped_snapshot(group_id);
-        self.group_snapshots
-            .write()
-            .insert((group_id.clone(), name.to_string()), snapshot);
+        snapshots.insert((group_id.clone(), name.to_string()), snapshot);
         Ok(())
     }
 
@@ -805,10 +806,12 @@ impl MdkStorageProvider for MdkMemoryStorage {
         name: &str,
     ) -> Result<(), MdkStorageError> {
         let key = (group_id.clone(), name.to_string());
-        // Remove and restore the snapshot (consume it)
-        let snapshot = self
-            .group_snapshots
-            .write()
+        // Remove and restore the snapshot (consume it). The snapshot map stays locked until
+        // the group is restored, so no other snapshot operation can observe the snapshot as
+        // consumed while the group still holds its old state
+        // (lock order: group_snapshots -> inner).
+        let mut snapshots = self.group_snapshots.write();
+        let snapshot = snapshots
             .remove(&key)
             .ok_or_else(|| MdkStorageError::NotFound("Snapshot not found".to_string()))?;
         self.restore_group_scoped_snapshot(snapshot);
